@@ -437,10 +437,10 @@ def report(mod, prop, tier, seed, units, results, extra, t0, origin, args):
         extra_txt += " cvc5=%d/%d agree" % (cross_stats["agreed"], cross_stats["rechecked"])
     print("%s tier=%s units=%d paths=%d obligations=%d discharged=%d failed=%d undecided=%d known=%d wall=%.1fs solver=%.1fs%s"
           % (prop, tier, len(units), paths, n_ob, n_dis, len(printed), len(und_names), len(shown), wall, solver_s, extra_txt))
+    if printed:
+        return 1            # a violation stands even if another proof unit could not be run
     if errors or xdis:
         return 3
-    if printed:
-        return 1
     if und_names:
         return 2
     if n_ob == 0:
